@@ -8,7 +8,8 @@
    guarantee (u64 addresses, u32 sizes/depths) plus "fewer than 2^32-1 INLINE ranges per FUNC". *)
 From Coq Require Import Lia.
 From RM Require Import C08.Model C08.Proofs C11.Model C11.Proofs1 C11.Proofs2 C11.Proofs3 C11.Proofs4 C11.Proofs5 C11.Proofs6 C11.Proofs7.
-From RM Require C09.Model C09.Grammar C11.Text.
+From RM Require C09.Model C09.Grammar C11.Text C11.Text2.
+From RM Require Import C11.Proofs8.
 Open Scope Z_scope.
 
 (* Parsing and symbolication never panic (overflow in `address + module.base_address()`,
@@ -244,6 +245,41 @@ Theorem c11_module_frame_total : forall p (mods : list module) instr,
 Proof. exact module_frame_total. Qed.
 Print Assumptions c11_module_frame_total.
 
+(* From text, whole table.  For the lines of any symbol text the recogniser of C09/Grammar.v accepts,
+   [t] = SymbolParser::finish of the parser state, a name map [nm] and a tag map [tg] satisfying
+   [enc_ok] (nm injective on the FUNC names and order-preserving on the PUBLIC names of the text; tg
+   a function of the STACK WIN fields other than address/size/parameter size that separates the
+   records of the text; the integer fields in the range their recognisers guarantee): the table
+   [symtab_of_table t] (FILE / INLINE_ORIGIN maps, sorted PUBLIC list, FUNC table, both STACK WIN
+   tables of [finish]) is related by [st_rel] to the records collected from the text, and
+   fill_symbol on it IS [symbolize] on those records — so every theorem above is a theorem about
+   the text.  ([c11_table_interface] is the general form: any table related to the records.) *)
+Theorem c11_from_text : forall nm tg (lines : list Grammar.rle) q t,
+  RM.C09.Model.fold_recog Grammar.rle Grammar.pst Grammar.recog_pst Grammar.lineno_pst Grammar.init_pst lines = inl q ->
+  Grammar.finish q = Ret t -> Text2.enc_ok nm tg q ->
+  st_rel true (Text2.raw_of_pst nm tg q) (Text2.symtab_of_table nm tg t) /\
+  forall p mbase instr, 0 <= mbase -> instr < two64 ->
+    fill_symbol p (Text2.symtab_of_table nm tg t) mbase instr = symbolize p (Text2.raw_of_pst nm tg q) mbase instr.
+Proof. exact Text2.from_text. Qed.
+Print Assumptions c11_from_text.
+
+(* The integer ranges [wf_file] asks for are what C09's number recognisers deliver (hex_str::<u64>
+   = 16 hex digits, hex_str::<u32> = 8, decimal_u32).  (That every record the parser state
+   collects was built from these recognisers is not proved: [eo_wf] stays a hypothesis of
+   c11_from_text.) *)
+Theorem c11_number_recognisers_in_range :
+  (forall s v s', Grammar.hex_str 16%nat s = Some (v, s') -> 0 <= v < two64) /\
+  (forall s v s', Grammar.hex_str 8%nat s = Some (v, s') -> 0 <= v < two32) /\
+  (forall s v s', Grammar.decimal_u32 s = Some (v, s') -> 0 <= v < two32).
+Proof. exact (conj Text2.hex64_range (conj Text2.hex32_range Text2.decimal_u32_range)). Qed.
+Print Assumptions c11_number_recognisers_in_range.
+
+Theorem c11_table_interface : forall p rf st mbase instr,
+  wf_file rf -> st_rel true rf st -> 0 <= mbase -> instr < two64 ->
+  fill_symbol p st mbase instr = symbolize p rf mbase instr.
+Proof. exact table_interface. Qed.
+Print Assumptions c11_table_interface.
+
 Ltac wf_tac :=
   unfold wf_file, wf_fraw, wf_line, wf_inl, wf_pub, wf_win, u64, u32, two64, two32;
   repeat (first [apply Forall_nil | apply Forall_cons | split]); cbn; try lia.
@@ -324,4 +360,35 @@ Proof.
   split; [|split; [|split; vm_compute; reflexivity]].
   - unfold Text.wf_text_funcs. cbn. wf_tac.
   - unfold Text.names_injective. cbn. intros a b [<-|[<-|[]]] [<-|[<-|[]]]; cbn; intros H; try reflexivity; discriminate.
+Qed.
+
+(* text: FILE 1 x / PUBLIC 8 0 a / FUNC 10 8 0 f / 10 4 7 1 / INLINE_ORIGIN 2 o / INLINE 0 3 1 2 10 4 / PUBLIC m 30 0 b *)
+Definition nv_text2 : list Grammar.rle :=
+  map (map (fun b => (b, 1)))
+      [[70;73;76;69;32;49;32;120];
+       [80;85;66;76;73;67;32;56;32;48;32;97];
+       [70;85;78;67;32;49;48;32;56;32;48;32;102];
+       [49;48;32;52;32;55;32;49];
+       [73;78;76;73;78;69;95;79;82;73;71;73;78;32;50;32;111];
+       [73;78;76;73;78;69;32;48;32;51;32;49;32;50;32;49;48;32;52];
+       [80;85;66;76;73;67;32;109;32;51;48;32;48;32;98]].
+Definition nv_tg (w : Grammar.win_info) : Z := Grammar.wi_prolog w.
+Example c11_nonvacuous_from_text_whole :
+  exists q t,
+    RM.C09.Model.fold_recog Grammar.rle Grammar.pst Grammar.recog_pst Grammar.lineno_pst Grammar.init_pst nv_text2 = inl q /\
+    Grammar.finish q = Ret t /\ Text2.enc_ok nv_nm nv_tg q /\
+    fill_symbol Debug (Text2.symtab_of_table nv_nm nv_tg t) 4096 (4096 + 17) =
+      Ret (mk_out (Some (102, 4112, 0)) (Some (120, 3, 4112)) [(111, Some 120, Some 7)]) /\
+    fill_symbol Debug (Text2.symtab_of_table nv_nm nv_tg t) 4096 (4096 + 50) =
+      Ret (mk_out (Some (98, 4144, 0)) None []).
+Proof.
+  eexists. eexists. split; [vm_compute; reflexivity|]. split; [vm_compute; reflexivity|].
+  split; [|split; vm_compute; reflexivity].
+  constructor.
+  - unfold Text2.raw_of_pst. cbn. wf_tac.
+  - unfold Text.names_injective. cbn. intros a b [<-|[]] [<-|[]] _. reflexivity.
+  - cbn. intros a b [<-|[<-|[]]] [<-|[<-|[]]]; vm_compute; reflexivity.
+  - intros w sz. reflexivity.
+  - cbn. intros a b (w0 & [] & _).
+  - cbn. intros a b (w0 & [] & _).
 Qed.
